@@ -15,6 +15,7 @@
 
 // Ourselves:
 #include <bxdecay0/utils.h>
+#include <bxdecay0/verif_hooks.h>
 
 // Standard library:
 #include <cmath>
@@ -27,7 +28,9 @@ namespace bxdecay0 {
     static bool devel = false;
     // devel = true;
     static std::map<std::string, bool> _t;
+    BXDECAY0_VERIF_YIELD("traces:pre_check");
     if (_t.empty()) {
+      BXDECAY0_VERIF_YIELD("traces:filling");
       if (devel) {
         std::cerr << "[devel] bxdecay0::traces: "
                   << "Populating trace map..." << std::endl;
